@@ -26,6 +26,7 @@ structure WfCallSet (cols contigs : List String) (recs : List (String × Nat × 
   contigs_wf : ∀ c ∈ contigs, WfContig c
   contigs_nodup : contigs.Nodup
   recs_wf : ∀ r ∈ recs, r.1 ∈ contigs ∧ 1 ≤ r.2.1 ∧ r.2.2.length = cols.length ∧ ∀ g ∈ r.2.2, WfGt g
+  pos_fits : ∀ r ∈ recs, r.2.1 < 2 ^ 64       -- a position beyond the machine word is refused by the parser ("invalid position")
 
 /-- sizes that fit the BCF length fields -/
 structure FitsBcf (cols contigs : List String) (recs : List (String × Nat × List GtRes)) : Prop where
